@@ -122,6 +122,11 @@ FAULTS = {
     "class-field-init-wrong-type": ["class C6 {", "\tvv: int", "\tconstructor(self) {", '\t\tself.vv = "x"', "\t}", "}"],
     "break-outside-loop": ["break"],
     "continue-outside-loop": ["continue"],
+    # a return statement written where the host puts its faults: what it must supply is decided by the function that IMMEDIATELY encloses it
+    "ret-value-here": ["return 5"],          # only in hosts whose function is void (or at module level)
+    "ret-str-here": ['return "x"'],          # a value in a void function / the wrong type in an int function
+    "ret-optional-here": ["return o"],       # a value in a void function / an optional as a plain int
+    "ret-bare-here": ["return"],             # only in hosts whose function returns int
 }
 
 # unknown name, systematically: the name ranges over a fresh identifier and every identifier-shaped word of the grammar
@@ -162,16 +167,25 @@ for _cn, (_cv, _valid) in IDX_CONTAINERS.items():
             FAULTS[f"index:{_cn}:{_in}:opassign"] = [f"{_cv}[{_ie}] += 1"]
 
 NEED_FN = {"break-outside-loop", "continue-outside-loop"}   # meaningless inside a loop host
-HOSTS = ["module", "fn", "closure", "method", "ctor", "elseif", "while", "from", "imported", "nested-block", "module-crlf", "fn-commented"]
+HOSTS = ["module", "fn", "closure", "method", "ctor", "elseif", "while", "from", "imported", "nested-block", "module-crlf", "fn-commented",
+         "fn-int", "block-in-fn-int", "void-closure-block-in-fn-int", "int-closure-block-in-void-fn", "loop-in-method-int", "void-closure-else-in-method-int",
+         "void-closure-in-void-closure-in-fn-int"]
+# what the function that immediately encloses the fault position returns
+HOST_RET = {"module": "module", "fn": "void", "closure": "void", "method": "void", "ctor": "void", "elseif": "module", "while": "module", "from": "module",
+            "imported": "module", "nested-block": "module", "module-crlf": "module", "fn-commented": "void", "fn-int": "int", "block-in-fn-int": "int",
+            "void-closure-block-in-fn-int": "void", "int-closure-block-in-void-fn": "int", "loop-in-method-int": "int",
+            "void-closure-else-in-method-int": "void", "void-closure-in-void-closure-in-fn-int": "void"}
 
 
 def build(host, fault):
     """-> (files, (file with the fault, first line, last line)) ; None when inexpressible"""
     flines = FAULTS[fault]
-    if fault in NEED_FN and host in ("while", "from"):
+    if fault in NEED_FN and host in ("while", "from", "loop-in-method-int", "void-closure-in-void-closure-in-fn-int"):
         return None
-    if fault.startswith("ret-") and host == "ctor":
-        pass
+    if fault == "ret-value-here" and HOST_RET[host] == "int":
+        return None           # legal there
+    if fault == "ret-bare-here" and (HOST_RET[host] != "int" or host == "fn-int"):
+        return None           # legal there (in fn-int the next line would be read as the returned expression: statements are not separated by newlines)
     main = ['print "MARK"']
     faultfile = "x.ms"
 
@@ -200,6 +214,23 @@ def build(host, fault):
         lines = main + CLASS + ["from 0 to 1 {"] + body(1) + ["}"]
     elif host == "nested-block":
         lines = main + CLASS + ["if true {", "\tif true {"] + body(2) + ["\t}", "}"]
+    elif host == "fn-int":
+        lines = main + CLASS + ["host = fn() -> int {"] + body(1) + ["\treturn 0", "}", "hq = host()"]
+    elif host == "block-in-fn-int":
+        lines = main + CLASS + ["host = fn() -> int {", "\tif true {"] + body(2) + ["\t}", "\treturn 0", "}", "hq = host()"]
+    elif host == "void-closure-block-in-fn-int":
+        lines = main + CLASS + ["host = fn() -> int {", "\tinner = fn() {", "\t\tif true {"] + body(3) + ["\t\t}", "\t}", "\tinner()", "\treturn 0", "}", "hq = host()"]
+    elif host == "int-closure-block-in-void-fn":
+        lines = main + CLASS + ["host = fn() {", "\tinner = fn() -> int {", "\t\tif true {"] + body(3) + ["\t\t}", "\t\treturn 0", "\t}", "\tiq = inner()", "}", "host()"]
+    elif host == "loop-in-method-int":
+        lines = main + CLASS + ["class Host {", "\tconstructor(self) {}", "\tfn run(self) -> int {", "\t\tfrom 0 to 1 {"] + body(3) + ["\t\t}", "\t\treturn 0", "\t}", "}",
+                                "hh = Host()", "hq = hh.run()"]
+    elif host == "void-closure-else-in-method-int":
+        lines = main + CLASS + ["class Host {", "\tconstructor(self) {}", "\tfn run(self) -> int {", "\t\tinner = fn() {", "\t\t\tif 1 == 2 {", "\t\t\t\tskip = 1", "\t\t\t} else {"] \
+            + body(4) + ["\t\t\t}", "\t\t}", "\t\tinner()", "\t\treturn 0", "\t}", "}", "hh = Host()", "hq = hh.run()"]
+    elif host == "void-closure-in-void-closure-in-fn-int":
+        lines = main + CLASS + ["host = fn() -> int {", "\tmid = fn() {", "\t\tinner = fn() {", "\t\t\twq = 0", "\t\t\twhile wq < 1 {", "\t\t\t\twq = wq + 1"] \
+            + body(4) + ["\t\t\t}", "\t\t}", "\t\tinner()", "\t}", "\tmid()", "\treturn 0", "}", "hq = host()"]
     elif host == "module-crlf":
         # the same module with CR LF line ends: positions must not drift
         lines = main + CLASS + body(0)
@@ -243,14 +274,14 @@ class C03(Check):
     id = "C03"
     level = "fault_enumeration"
     rule = ("every (host context in {module level, function body, closure body, class method, constructor, else-if arm, while body, from body, "
-            "doubly nested block, imported module, module with CR LF line ends, function body interleaved with comments}) x (fault of a catalogue of 89 type-breaking edits plus the unknown-name family = {fresh identifier, every "
+            "doubly nested block, imported module, module with CR LF line ends, function body interleaved with comments, body / block / loop of an int-returning function or method, block of a void closure nested (once, twice, in an else arm) in an int-returning function or method, block of an int closure in a void function}) x (fault of a catalogue of 89 type-breaking edits plus the unknown-name family = {fresh identifier, every "
             "identifier-shaped word of grammar.pest} x 12 expression positions (print, operand, right operand, initialiser, callee, argument, list "
             "element, condition, index, receiver, assert, last statement of a block) and the non-index family = 4 container kinds (open list, fixed list, str, map) x "
             "13 index expressions of a wrong kind (literal, variable, non-constant expression) x read / store / op-assignment: wrong-typed annotated initialiser, "
             "re-assignment with another type (variable, field, list element, map value, op-assignment), wrong argument type / count (function, "
             "method, constructor, built-in), wrong / missing return value, non-boolean condition (if, else-if, while, assert, !, &&), unknown "
             "name / type / field / method, call of a non-callable, index of a non-indexable, non-index index, wrong map key type, operators on "
-            "unsupported kinds, optional misuse, from-loop bound / step of the wrong type, break / continue outside a loop).  The first statement "
+            "unsupported kinds, optional misuse, from-loop bound / step of the wrong type, break / continue outside a loop; a `return` of a value / of the wrong type / without a value written at the host's fault position and judged by the function immediately enclosing it).  The first statement "
             "of every program prints a marker; every host is also run without a fault (positive control).")
     assumptions = ["the diagnostic must name the file that contains the edited statement and a line inside that statement"]
     chunksize = 16
